@@ -186,7 +186,11 @@ def case(ctx, case):
     env, O, cfg = policies.env_for(name, n, **case.get("extra", {}))
     pol = policies.make(kind, env, seed=case.get("wseed", 0), **case.get("pkw", {}))
     torch.manual_seed(seed)
-    td_in = env.generator(batch_size=[m])
+    if case.get("inst_n"):  # instances of another size than the env (and the policy's env) was constructed for
+        td_in = policies.env_for(name, case["inst_n"], **case.get("extra", {}))[0].generator(batch_size=[m])
+        ctx.count("c14_other_size_cases")
+    else:
+        td_in = env.generator(batch_size=[m])
     rnd = random.Random(seed)
     sig = dict(policy=kind, env=name)
     global DECODE_KW
